@@ -5,6 +5,7 @@ import (
 	"fmt"
 	"io"
 	"net"
+	"os"
 	"runtime"
 	"strings"
 	"sync"
@@ -258,6 +259,71 @@ func genC12(o *hx.Out, tier string) {
 			o.Add("serial "+point, verdict, "expect", "ok", fmt.Sprintf("serial %s rep=%d", point, rep))
 		}
 	}
+	// ---- Close() right after NewNode(): every goroutine the node started is counted, none keeps
+	// running (and opening devices) after Close() has returned ----
+	for rep := 0; rep < reps*3; rep++ {
+		runtime.GOMAXPROCS([]int{1, 1, 2, 16}[rep%4])
+		var mu sync.Mutex
+		var opened []*scn.Pipe
+		closedAt := time.Time{}
+		lateOpens := 0
+		gomavlib.VerifSetSerialOpenFunc(func(device string, baud int) (io.ReadWriteCloser, error) {
+			p := scn.NewPipe(device)
+			mu.Lock()
+			opened = append(opened, p)
+			if !closedAt.IsZero() {
+				lateOpens++
+			}
+			mu.Unlock()
+			return p, nil
+		})
+		node, err := gomavlib.NewNode(gomavlib.NodeConf{Endpoints: []gomavlib.EndpointConf{gomavlib.EndpointSerial{Device: "/dev/fake", Baud: 57600}},
+			Dialect: d, OutVersion: gomavlib.V2, OutSystemID: 10, HeartbeatDisable: rep%2 == 0, HeartbeatPeriod: 5 * time.Millisecond})
+		if err != nil {
+			o.Add("serial immediate close", "INIT-FAILED "+err.Error(), "expect", "ok", fmt.Sprintf("immediate rep=%d", rep))
+			continue
+		}
+		// Close() is called directly, with nothing else made runnable in between: the goroutines the
+		// node has just started may not have run a single instruction yet (a hang here would be a
+		// Close() that does not return, which the scenarios above report; the watchdog only keeps
+		// the harness from waiting for ever)
+		verdict := "ok"
+		watchdog := time.AfterFunc(20*time.Second, func() {
+			fmt.Fprintln(os.Stderr, "C12 immediate close: Close() did not return within 20 s")
+			os.Exit(3)
+		})
+		node.Close()
+		watchdog.Stop()
+		mu.Lock()
+		closedAt = time.Now()
+		mu.Unlock()
+		evClosed := make(chan struct{})
+		go func() {
+			for range node.Events() {
+			}
+			close(evClosed)
+		}()
+		select {
+		case <-evClosed:
+		case <-time.After(5 * time.Second):
+			verdict = "EVENTS-NOT-CLOSED"
+		}
+		time.Sleep(30 * time.Millisecond)
+		mu.Lock()
+		if lateOpens > 0 && verdict == "ok" {
+			verdict = fmt.Sprintf("DEVICE-OPENED-AFTER-CLOSE-RETURNED x%d", lateOpens)
+		}
+		for i, p := range opened {
+			if c := atomic.LoadInt32(&p.Closes); c != 1 && verdict == "ok" {
+				verdict = fmt.Sprintf("SERIAL-DEVICE-%d-CLOSE-COUNT=%d", i, c)
+			}
+		}
+		mu.Unlock()
+		if l := scn.Leaks(); l != "" && verdict == "ok" {
+			verdict = "GOROUTINE-LEAK " + l
+		}
+		o.Add("serial immediate close", verdict, "expect", "ok", fmt.Sprintf("immediate rep=%d", rep))
+	}
 	// ---- a device obtained while the node is closing must be released ----
 	for rep := 0; rep < reps*2; rep++ {
 		runtime.GOMAXPROCS([]int{1, 2, 16}[rep%3])
@@ -496,6 +562,54 @@ func genC12(o *hx.Out, tier string) {
 			}
 		}
 		o.Add("failed initialisation", verdict, "expect", "ok", fmt.Sprintf("failed-init rep=%d", rep))
+	}
+	// ---- whatever the outcome of the initialisation (odd but syntactically possible settings):
+	// after a failure, or after Close() when it succeeded, the local ports are free again ----
+	oddp := base + 12
+	odd := []struct {
+		name string
+		conf gomavlib.EndpointConf
+		udp  bool
+	}{
+		{"broadcast port above 65535", gomavlib.EndpointUDPBroadcast{BroadcastAddress: "127.255.255.255:70000", LocalAddress: fmt.Sprintf("127.0.0.1:%d", oddp)}, true},
+		{"broadcast port not a number", gomavlib.EndpointUDPBroadcast{BroadcastAddress: "127.255.255.255:mavlink", LocalAddress: fmt.Sprintf("127.0.0.1:%d", oddp)}, true},
+		{"broadcast address without a port", gomavlib.EndpointUDPBroadcast{BroadcastAddress: "127.255.255.255", LocalAddress: fmt.Sprintf("127.0.0.1:%d", oddp)}, true},
+		{"broadcast address not an IP", gomavlib.EndpointUDPBroadcast{BroadcastAddress: "nowhere:5600", LocalAddress: fmt.Sprintf("127.0.0.1:%d", oddp)}, true},
+		{"broadcast ok", gomavlib.EndpointUDPBroadcast{BroadcastAddress: "127.255.255.255:5600", LocalAddress: fmt.Sprintf("127.0.0.1:%d", oddp)}, true},
+		{"tcp server then bad udp server", gomavlib.EndpointTCPServer{Address: fmt.Sprintf("127.0.0.1:%d", oddp)}, false},
+	}
+	for _, od := range odd {
+		eps := []gomavlib.EndpointConf{od.conf}
+		if !od.udp {
+			eps = append(eps, gomavlib.EndpointUDPServer{Address: "not an address"})
+		}
+		node, err := gomavlib.NewNode(gomavlib.NodeConf{Endpoints: eps, Dialect: d, OutVersion: gomavlib.V2, OutSystemID: 10, HeartbeatDisable: true})
+		verdict := "ok"
+		if err == nil {
+			col := scn.NewCollector(node, 0, false)
+			if !scn.CloseWithin(node, 8*time.Second) {
+				verdict = "CLOSE-DID-NOT-RETURN"
+			}
+			select {
+			case <-col.Done:
+			case <-time.After(3 * time.Second):
+			}
+		}
+		free := canListenTCP
+		if od.udp {
+			free = canListenUDP
+		}
+		if verdict == "ok" && !free(fmt.Sprintf("127.0.0.1:%d", oddp)) {
+			if err != nil {
+				verdict = "PORT-LEFT-BOUND-AFTER-FAILED-INIT (" + err.Error() + ")"
+			} else {
+				verdict = "PORT-LEFT-BOUND-AFTER-CLOSE"
+			}
+		}
+		if l := scn.Leaks(); l != "" && verdict == "ok" {
+			verdict = "GOROUTINE-LEAK " + l
+		}
+		o.Add("initialisation outcome agnostic: "+od.name, verdict, "expect", "ok", "odd-config "+od.name)
 	}
 	runtime.GOMAXPROCS(runtime.NumCPU())
 }
